@@ -296,31 +296,100 @@ def gen_align(rng, i):
     return case
 
 
+BAD_CALLS = {
+    # kind -> keyword overrides of a preprocess() call the anchored code rejects (validate_pad_value of
+    # compound_validators.py, float()/int() conversion of the setters)
+    "pad_value>1": {"pad_value": 1.5},
+    "pad_value<0": {"pad_value": -0.1},
+    "pad_value list length": {"pad_value": "LIST+1"},
+    "pad_value None": {"pad_value": None},
+    "pad_value list of str": {"pad_value": "LISTSTR"},
+    "kde_sigma not a number": {"kde_sigma": "wide"},
+    "number_knots not a number": {"number_knots": "two"},
+    "pad_fraction not a number": {"pad_fraction": "quarter"},
+}
+
+
+def _same_state(a, b):
+    """behavioural state of two DriftCorrection objects: canvas, knots, per-pixel coordinates, warped stack"""
+    if tuple(a.shape) != tuple(b.shape):
+        return False, {"shape": [list(a.shape), list(b.shape)]}
+    if len(a.knots) != len(b.knots) or len(a.interpolator) != len(b.interpolator):
+        return False, {"len": [len(a.knots), len(b.knots)]}
+    for i in range(len(a.knots)):
+        if not np.array_equal(np.asarray(a.knots[i]), np.asarray(b.knots[i]), equal_nan=True):
+            return False, {"knots": i, "max_diff": float(np.max(np.abs(np.asarray(a.knots[i]) - np.asarray(b.knots[i])))) if np.shape(a.knots[i]) == np.shape(b.knots[i]) else "shape"}
+        ca = a.interpolator[i].transform_coordinates(a.knots[i])
+        cb = b.interpolator[i].transform_coordinates(b.knots[i])
+        if not (np.array_equal(np.asarray(ca[0]), np.asarray(cb[0]), equal_nan=True) and np.array_equal(np.asarray(ca[1]), np.asarray(cb[1]), equal_nan=True)):
+            return False, {"coordinates": i}
+    if not np.array_equal(np.asarray(a.images_warped.array), np.asarray(b.images_warped.array), equal_nan=True):
+        return False, {"images_warped": float(np.max(np.abs(np.asarray(a.images_warped.array, dtype=float) - np.asarray(b.images_warped.array, dtype=float))))}
+    if not np.array_equal(np.asarray(a.weights_warped.array), np.asarray(b.weights_warped.array), equal_nan=True):
+        return False, {"weights_warped": float(np.max(np.abs(np.asarray(a.weights_warped.array, dtype=float) - np.asarray(b.weights_warped.array, dtype=float))))}
+    return True, {}
+
+
 def case_rehist(ctx, case):
     """call history on ONE DriftCorrection object: preprocess with configuration A, change scan directions /
-    pad fraction / KDE width / knot count, preprocess again (possibly several times); after the last call the
-    placement formula must hold and the object must equal a fresh one built directly with the final configuration"""
+    pad fraction / KDE width / knot count, preprocess again (possibly several times), with REJECTED calls in
+    between (invalid pad_value forms / unconvertible numbers, combined with otherwise changed arguments; the
+    exception is caught).  A twin object receives the same history without the rejected calls: after every
+    rejected call and after a final align_translation the two must be indistinguishable; after the last
+    successful call the placement formula must hold and the object must equal a fresh one built directly with
+    the final configuration"""
+    import contextlib
+    import io
     from qv.prng import Rng
     from quantem.imaging.drift import DriftCorrection
     H, W, n = case["H"], case["W"], case["n"]
     rng = Rng(case["sub"])
-    images = [make_image(rng, H, W) for _ in range(n)]
-    steps = case["steps"]
-    for st in steps:
-        if any(0 < t < 1e-6 for t in (canvas_oracle(H, st["pad"])[1], canvas_oracle(W, st["pad"])[1])) or \
-                canvas_oracle(H, st["pad"])[0] == 0 or canvas_oracle(W, st["pad"])[0] == 0:
+    if case.get("identical"):
+        base = make_image(rng, H, W)
+        images = [base.copy() for _ in range(n)]
+    else:
+        images = [make_image(rng, H, W) for _ in range(n)]
+    allsteps = case["steps"]
+    steps = [st for st in allsteps if "reject" not in st]
+    for st in allsteps:
+        pf = st["pad"]
+        if isinstance(pf, (int, float)) and (any(0 < t < 1e-6 for t in (canvas_oracle(H, pf)[1], canvas_oracle(W, pf)[1])) or
+                                             canvas_oracle(H, pf)[0] == 0 or canvas_oracle(W, pf)[0] == 0):
             ctx.dist["rehist:rejected(np.round near-tie / empty canvas)"] += 1
             return
     ctx.count()
     ctx.dist[f"rehist:steps={len(steps)}"] += 1
     dc = DriftCorrection.from_data([im.copy() for im in images], list(steps[0]["angles"]))
+    twin = DriftCorrection.from_data([im.copy() for im in images], list(steps[0]["angles"]))
     prev = None
-    for st in steps:
+    for pos, st in enumerate(allsteps):
+        if "reject" in st:
+            kind = st["reject"]
+            kw = {"pad_fraction": st["pad"], "pad_value": st["pad_value"], "kde_sigma": st["sigma"], "number_knots": st["nk"]}
+            for k, v in BAD_CALLS[kind].items():
+                kw[k] = [0.0] * (n + 1) if v == "LIST+1" else (["a"] * n if v == "LISTSTR" else v)
+            if st.get("angles") is not None:     # a legitimate assignment, made on both objects
+                dc.scan_direction_degrees = list(st["angles"])
+                twin.scan_direction_degrees = list(st["angles"])
+            try:
+                dc.preprocess(**kw)
+                ctx.dist["rehist:invalid call was accepted (case abandoned)"] += 1
+                return
+            except (ValueError, TypeError) as e:
+                ctx.dist[f"rehist:rejected call [{kind}] -> {type(e).__name__}"] += 1
+            same, why = _same_state(dc, twin)
+            if not same:
+                ctx.pred_fail(f"rehist-rejected-call-left-state-{'pad_value' if kind.startswith('pad_value') else 'conversion'}",
+                              "a preprocess() call that raised left the object in a different resampling state than a twin on which the "
+                              "call was never made", dict(case, failing_step=pos), observed=why, required="state unchanged by a rejected call")
+                return
+            continue
         if prev is not None:
             changed = [k for k in ("angles", "pad", "sigma", "nk") if st[k] != prev[k]]
             ctx.dist["rehist:changed=" + ("+".join(changed) or "nothing")] += 1
-        dc.scan_direction_degrees = list(st["angles"])
-        dc.preprocess(pad_fraction=st["pad"], pad_value=st["pad_value"], kde_sigma=st["sigma"], number_knots=st["nk"])
+        for o in (dc, twin):
+            o.scan_direction_degrees = list(st["angles"])
+            o.preprocess(pad_fraction=st["pad"], pad_value=st["pad_value"], kde_sigma=st["sigma"], number_knots=st["nk"])
         prev = st
     last = steps[-1]
     ctx.dist[f"rehist:final nk={last['nk']}"] += 1
@@ -365,7 +434,30 @@ def case_rehist(ctx, case):
                 ctx.pred_fail(f"rehist-knot-count-nk{last['nk']}",
                               f"after a preprocess() history the {last['nk']}-knot coordinates differ from the {nk2}-knot ones", dict(case, image=idx),
                               observed={"max_diff_px": d}, required="identical coordinates for 1..4 knots")
-    ctx.mark(("rehist", shape_sig(H, W), len(steps), last["nk"], tuple(sorted({angle_class(a) for a in last["angles"]}))))
+    # ---- further use after the history: translation alignment on the object and on its twin
+    k0 = [np.array(k, dtype=float, copy=True) for k in dc.knots]
+    with contextlib.redirect_stdout(io.StringIO()):
+        for o in (dc, twin):
+            o.align_translation(upsample_factor=case.get("up", 1), show_merged=False)
+    same, why = _same_state(dc, twin)
+    if not same:
+        ctx.pred_fail("rehist-align-differs-from-twin", "align_translation after a history with rejected preprocess() calls differs from the twin "
+                      "object on which the rejected calls were never made", case, observed=why, required="identical knots / warped stack")
+    degenerate = any(not np.all(np.isfinite(np.asarray(k))) for k in twin.knots)
+    if degenerate:
+        # a 2-pixel-wide canvas with a flat correlation along that axis: the parabola is 0/0 on the twin as well
+        ctx.dist["rehist:degenerate correlation (NaN shift on the twin too)"] += 1
+    wsum = [float(np.sum(np.asarray(w, dtype=np.float64))) for w in dc.weights_warped.array]
+    if not degenerate and any(abs(v - H * W) / (H * W) > 1e-4 for v in wsum):
+        ctx.pred_fail("rehist-weight-sum", "weight map after the history does not sum to the number of image pixels", case, observed=wsum, required=H * W)
+    if case.get("identical") and not degenerate:
+        moved = max(float(np.max(np.abs(np.asarray(k1, dtype=float) - k))) for k1, k in zip(dc.knots, k0))
+        ctx.stat_max("rehist:identical_stack_knot_motion", moved)
+        if not moved <= TOL32:
+            ctx.pred_fail("rehist-fixed-point", "identical stack is not a fixed point of align_translation after a preprocess() history", case,
+                          observed=moved, required="knots unchanged")
+    nrej = sum(1 for st in allsteps if "reject" in st)
+    ctx.mark(("rehist", shape_sig(H, W), len(steps), nrej, last["nk"], tuple(sorted({angle_class(a) for a in last["angles"]}))))
     ctx.sample(case, limit=8)
 
 
@@ -397,7 +489,24 @@ def gen_rehist(rng, i):
         steps.append(st)
     if i % 2 == 0:
         steps[-1]["nk"] = 1     # the default single knot after a history
-    return {"stream": "rehist", "H": H, "W": W, "n": n, "steps": steps, "sub": rng.next() & 0xFFFFFFFF}
+    identical = (i % 3 == 1)
+    if identical:
+        for st_ in steps:
+            st_["angles"] = [st_["angles"][0]] * n
+    # rejected calls between (and after) the successful ones, each with otherwise changed arguments
+    out = []
+    for j, st_ in enumerate(steps):
+        out.append(st_)
+        if rng.chance(0.6 if i % 4 != 3 else 0.0) or (i % 4 == 0 and j == len(steps) - 1 and not any("reject" in o for o in out)):
+            bad = dict(st_)
+            bad["reject"] = rng.choice(sorted(BAD_CALLS))
+            bad["pad"] = rng.choice([p_ for p_ in (0.0, 0.25, 0.5, 0.75) if p_ != st_["pad"]])
+            bad["nk"] = rng.choice([k_ for k_ in (1, 2, 3, 4) if k_ != st_["nk"]])
+            bad["sigma"] = rng.choice([0.25, 0.75, 1.5])
+            bad["angles"] = ([rng.randint(0, 359)] * n if identical else angles()) if rng.chance(0.4) else None
+            out.append(bad)
+    return {"stream": "rehist", "H": H, "W": W, "n": n, "steps": out, "identical": identical, "up": rng.choice([1, 2, 3, 8]),
+            "sub": rng.next() & 0xFFFFFFFF}
 
 
 def run_case(ctx, drv, case):
